@@ -92,18 +92,20 @@ def bestPairGo (s1 s2 : Bytes) : List (Matchable × Matchable) → Nat → Optio
           then bestPairGo s1 s2 rest (i+1) (some (m1, m2))
           else bestPairGo s1 s2 rest (i+1) best
 
-/-- one side of `PairedAdapterCutter.__call__` (note: no `crop` branch — the read stays trimmed) -/
-def pairActionRead (action : Action) (read : Read) (m : AnyMatch) : Read × Read :=
+/-- one side of `PairedAdapterCutter.__call__`; returns the result and the input read as the call leaves it -/
+def pairActionRead (action : Action) (read : Read) (m : AnyMatch) : Except Err (Read × Read) :=
   let read := if action == .lowercase then { read with seq := upperBytes read.seq } else read
   let tr := m.trimmed read
-  let out := match action with
-    | .trim => tr
-    | .mask => maskedRead read [m]
-    | .lowercase => lowercasedRead read [m]
-    | .retain => let (a, b) := m.retainedAdapterInterval; read.sub a b
-    | .none => read
-    | .crop => tr
-  (out, read)
+  match action with
+  | .trim => .ok (tr, read)
+  | .mask => .ok (maskedRead read [m], read)
+  | .lowercase => .ok (lowercasedRead read [m], read)
+  | .retain => let (a, b) := m.retainedAdapterInterval; .ok (read.sub a b, read)
+  | .none => .ok (read, read)
+  | .crop =>
+    match m with
+    | .single _ r => .ok (read.sub r.m.rstart r.m.rstop, read)
+    | .linked _ _ _ => .error .attribute
 
 def applyP (ads1 ads2 : List Matchable) : PMod → Read × Read → Info × Info →
     Except Err ((Read × Read) × (Info × Info) × List Event)
@@ -116,13 +118,17 @@ def applyP (ads1 ads2 : List Matchable) : PMod → Read × Read → Info × Info
       | none => .ok (r2, i2, [])
     pure ((r1', r2'), (i1', i2'), e1 ++ e2)
   | .pairedRevcomp c1 c2 suffix first1 first2, (r1, r2), (i1, i2) => do
-    let (t1, m1, r1a) ← cutterOpt c1 r1
-    let (t2, m2, r2a) ← cutterOpt c2 r2
-    -- the swapped run sees the objects as the first run left them (upper-cased under `lowercase`)
-    let (t1s, m1s, _) ← cutterOpt c1 r2a
-    let (t2s, m2s, _) ← cutterOpt c2 r1a
-    let i1 := if first1 then { i1 with original := { i1.original with seq := r1a.seq } } else i1
-    let i2 := if first2 then { i2 with original := { i2.original with seq := r2a.seq } } else i2
+    -- `match_and_trim` upper-cases its argument *in place* under the `lowercase` action, and each of the two read
+    -- objects is handed to whichever cutters exist (directly or in the swapped run): both end up upper-cased
+    let lower := (c1.map (·.action == .lowercase)).getD false || (c2.map (·.action == .lowercase)).getD false
+    let r1 := if lower then { r1 with seq := upperBytes r1.seq } else r1
+    let r2 := if lower then { r2 with seq := upperBytes r2.seq } else r2
+    let (t1, m1, _) ← cutterOpt c1 r1
+    let (t2, m2, _) ← cutterOpt c2 r2
+    let (t1s, m1s, _) ← cutterOpt c1 r2
+    let (t2s, m2s, _) ← cutterOpt c2 r1
+    let i1 := if first1 then { i1 with original := { i1.original with seq := r1.seq } } else i1
+    let i2 := if first2 then { i2 with original := { i2.original with seq := r2.seq } } else i2
     let useRc := scoreSum m1s + scoreSum m2s > scoreSum m1 + scoreSum m2
     let (o1, o2, n1, n2) := if useRc then (t1s, t2s, m1s, m2s) else (t1, t2, m1, m2)
     let o1 := if useRc && suffix then { o1 with name := o1.name ++ bytesOfStr " rc" } else o1
@@ -135,12 +141,12 @@ def applyP (ads1 ads2 : List Matchable) : PMod → Read × Read → Info × Info
   | .pairAdapters a1 a2 action first1 first2, (r1, r2), (i1, i2) =>
     match bestPairGo r1.seq r2.seq (a1.zip a2) 0 none with
     | none => .ok ((r1, r2), (i1, i2), [])
-    | some (m1, m2) =>
-      let (o1, r1a) := pairActionRead action r1 m1
-      let (o2, r2a) := pairActionRead action r2 m2
+    | some (m1, m2) => do
+      let (o1, r1a) ← pairActionRead action r1 m1
+      let (o2, r2a) ← pairActionRead action r2 m2
       let i1 := if first1 then { i1 with original := { i1.original with seq := r1a.seq } } else i1
       let i2 := if first2 then { i2 with original := { i2.original with seq := r2a.seq } } else i2
-      .ok ((o1, o2), ({ i1 with mts := i1.mts ++ [m1] }, { i2 with mts := i2.mts ++ [m2] }),
+      pure ((o1, o2), ({ i1 with mts := i1.mts ++ [m1] }, { i2 with mts := i2.mts ++ [m2] }),
            [Event.withAdapter 0, Event.withAdapter 1, Event.matched 0 m1 false, Event.matched 1 m2 false])
   | .pairedRename t1 t2, (r1, r2), (i1, i2) => do
     let n1 ← t1.mapM (renderTok (namesOf ads1) r1 i1)
@@ -282,7 +288,7 @@ def stepP (ads1 ads2 : List Matchable) (idx : Nat) : Step → Read × Read → I
     let n2 := i2.mts.getLast?.map (fun m => (namesOf ads2).getD m.adapter "")
     match lookupLast (n1, n2) ws with
     | some w => .ok (none, [.sinkStat idx r1.len (some r2.len), .write w r1 (some r2)])
-    | none => .ok (none, [])          -- missing key: the pair is dropped and not counted anywhere
+    | none => .ok (none, [.filtered idx])   -- missing key: counted as discard_untrimmed
   -- `PairedSingleEndStep`: the wrapped step sees R1 only
   | s, (r1, r2), (i1, _) =>
     match stepS ads1 idx s r1 i1 with
